@@ -20,12 +20,13 @@ pub struct Prop {
 }
 
 const REAL_SYMS: &[&str] = &[
-    "breakpad-symbols (Symbolizer, CachedAsyncResult, SymbolFile::parse/parse_async, parser, walker, http.rs) built from /repo's working tree, release + overflow-checks",
+    "breakpad-symbols (Symbolizer, CachedAsyncResult, SymbolFile::parse/parse_async, parser, walker, http.rs incl. the mozilla_cab_symbols path) built from /repo's working tree, release + overflow-checks",
     "futures-util (join_all, lock::Mutex)",
     "cachemap2",
     "circular",
     "nom",
     "range-map",
+    "cab + lzxd + flate2 (cabinet unpacking in the CAB path; the same crate builds the served archives and the oracle's reference unpacking)",
 ];
 
 pub fn all() -> Vec<Prop> {
@@ -153,6 +154,8 @@ pub fn all() -> Vec<Prop> {
                 "e3.persist_fault",
                 "e3.persist_failed_entry_gone",
                 "e3.tmp_missing",
+                "e3.cab_entry_permitted",
+                "e3.error_with_good_body",
             ],
             watchdog_s: 60,
         },
